@@ -2,6 +2,8 @@
 # Self-test of the Go -> Lean function translation (docs/TRANSLATOR.md §5).
 #
 #   extract/selftest_funcs.sh [clean-source-dir]
+#   JOBS=6 extract/selftest_funcs.sh      (rows in parallel; ~110 rows, about 3 min each)
+#   ONLY="M64 M65 H9" ...                  (selected rows)   GENONLY=1 ... (regeneration only, no proofs)
 #
 # (i)   regenerates Rigo/Generated/Funcs.lean from a clean copy of rigo-go and compiles the equality
 #       proofs RigoProofs/GenFuncs*.lean against it (must pass);
@@ -20,7 +22,7 @@ EXPECT=${EXPECT:-$VERIF/expect}
 W=${W:-$VERIF/.work/translator/selftest}
 LEANSRC=${LEANSRC:-$VERIF/lean}   # where RigoProofs/GenFuncs*.lean are taken from
 MAIN=$VERIF/lean/.lake/build/lib/lean
-PROOFS=${PROOFS:-"GenFuncsBase GenFuncsSimple GenFuncsLoops GenFuncsLimiter GenFuncsSigner GenFuncsSlash GenFuncsValUpd GenFuncsStake2 GenFuncsTx GenFuncsMerge GenFuncsLimiter2 GenFuncsGovBase GenFuncsGovMisc GenFuncsGov GenFuncsGovPunish GenFuncs"}
+PROOFS=${PROOFS-"GenFuncsBase GenFuncsSimple GenFuncsLoops GenFuncsLimiter GenFuncsSigner GenFuncsSlash GenFuncsValUpd GenFuncsStake2 GenFuncsTx GenFuncsMerge GenFuncsLimiter2 GenFuncsGovBase GenFuncsGovMisc GenFuncsGov GenFuncsGovPunish GenFuncsCtrlBase GenFuncsCtrlGovV GenFuncsCtrlStakeV1 GenFuncsCtrlStakeV2 GenFuncsCtrlStakeV GenFuncsCtrlAcct GenFuncsCtrlStakeX GenFuncsCtrlUnstake GenFuncsCtrlGovX GenFuncsCtrlGovBlk1 GenFuncsCtrlGovBlk2 GenFuncsCtrlGovBlk GenFuncsCtrlStakeBlk GenFuncs"}
 ONLY=${ONLY:-}   # e.g. ONLY="M14 M15 H5": run only these rows (besides the clean base)
 rm -rf "$W"; mkdir -p "$W"
 OWN_WT=""
@@ -34,7 +36,7 @@ trap cleanup EXIT
 mkdir -p "$VERIF/.build"
 ( flock 9; cp "$SRC/go.sum" "$HERE/go.sum" 2>/dev/null; cd "$HERE" && go build -o "$W/rigoextract" . ) 9>"$VERIF/.build/go.lock" \
   || { echo "extractor does not build"; exit 2; }
-for m in Rigo/Types Rigo/StakeLogic Rigo/App Rigo/Block Rigo/Signer Rigo/Determinism RigoProofs/C01Sort; do
+for m in Rigo/Types Rigo/StakeLogic Rigo/App Rigo/Block Rigo/Signer Rigo/Determinism RigoProofs/C01Sort RigoProofs/TxCommon; do
   [ -f "$MAIN/$m.olean" ] || { echo "missing $MAIN/$m.olean: build the model first"; exit 2; }
 done
 
@@ -43,11 +45,18 @@ check() {
   local src=$1 d=$W/$2
   mkdir -p "$d/Rigo/Generated" "$d/RigoProofs" "$d/out/RigoProofs"
   cp -rs "$MAIN/Rigo" "$d/out/Rigo"; rm -f "$d"/out/Rigo/Generated/Funcs.*
-  ln -s "$MAIN/RigoProofs/C01Sort.olean" "$d/out/RigoProofs/C01Sort.olean"
+  # the other (non-generated) proof modules the equality proofs import (C01Sort, TxCommon, ...)
+  for o in "$MAIN"/RigoProofs/*.olean; do
+    case "$(basename "$o")" in GenFuncs*) ;; *) ln -s "$o" "$d/out/RigoProofs/$(basename "$o")";; esac
+  done
   "$W/rigoextract" -repo "$src" -expect "$EXPECT" -json "$d/facts.json" -funcs "$d/Rigo/Generated/Funcs.lean" >"$d/extract.log" 2>&1 \
     || { echo "extractor failed|-"; return; }
   local fv
   fv=$(python3 -c "import json,sys; c=json.load(open('$d/facts.json'))['checks']['funcs']; print('ok' if c['ok'] else 'FAIL: '+'; '.join(c['problems'])[:160])")
+  if [ "$2" != base ] && [ "$fv" = ok ] && cmp -s "$d/Rigo/Generated/Funcs.lean" "$W/base/Rigo/Generated/Funcs.lean"; then
+    echo "$fv|passes (generated file unchanged)"; return
+  fi
+  [ -n "${GENONLY:-}" ] && { echo "$fv|generated file differs (proofs not run: GENONLY)"; return; }
   cp "$LEANSRC"/RigoProofs/GenFuncs*.lean "$d/RigoProofs/"
   ( cd "$d" && LEAN_PATH=$MAIN lean -o out/Rigo/Generated/Funcs.olean Rigo/Generated/Funcs.lean >funcs.log 2>&1 ) \
     || { echo "$fv|generated file does not compile"; return; }
@@ -96,14 +105,31 @@ r=$(check "$SRC" base)
 printf "%-4s %-58s %-26s %s\n" "B" "none (clean HEAD)" "${r%%|*}" "${r##*|}"
 BASE_OK=0; [ "${r##*|}" = "passes" ] && [ "${r%%|*}" = "ok" ] && BASE_OK=1
 
+JOBS=${JOBS:-1}   # rows run in parallel (each row has its own scratch directory)
+ORDER=""
 run() { # id label file nth old new description
   if [ -n "$ONLY" ]; then case " $ONLY " in *" $1 "*) ;; *) return;; esac; fi
+  if [ "$JOBS" -gt 1 ]; then
+    while [ "$(jobs -rp | wc -l)" -ge "$JOBS" ]; do sleep 0.3; done
+    ORDER="$ORDER $1"
+    run1 "$@" >"$W/row_$1.txt" 2>&1 &
+  else
+    run1 "$@"
+  fi
+}
+flush_rows() { # print the rows of the parallel mode in the order they were started
+  [ "$JOBS" -gt 1 ] || return 0
+  wait
+  for id in $ORDER; do cat "$W/row_$id.txt"; done
+  ORDER=""
+}
+run1() {
   local d
   d=$(mutate "$2" "$3" "$4" "$5" "$6") || { printf "%-4s %-58s %s\n" "$1" "$7" "MUTATION DID NOT APPLY"; return; }
   local r
   r=$(check "$d" "$2")
   printf "%-4s %-58s %-26s %s\n" "$1" "$7" "$(echo "${r%%|*}" | cut -c1-26)" "${r##*|}"
-  rm -rf "$d"
+  rm -rf "$d" "$W/$2/out"
   echo "$1|${r%%|*}|${r##*|}" >>"$W/results.txt"
 }
 
@@ -198,6 +224,125 @@ run M63 m_63 ctrlers/stake/limiter.go 1 'if sl.powerObjs == nil {
 		return nil
 	}' "checkLimit: nil limiter only passes positive changes"
 
+
+# ---- round 3: the controllers' stateful functions (ledger access as GLedger operations, interface calls as oracles)
+GC=ctrlers/gov/ctrler.go
+SC=ctrlers/stake/ctrler.go
+AC=ctrlers/account/ctrler.go
+run M64 m_64 $GC 1 'txpayload.StartVotingHeight <= ctx.Height' 'txpayload.StartVotingHeight < ctx.Height' "gov ValidateTrx: voting may start at the current height"
+run M65 m_65 $GC 1 'txpayload.VotingPeriodBlocks > ctrler.MaxVotingPeriodBlocks()' 'txpayload.VotingPeriodBlocks >= ctrler.MaxVotingPeriodBlocks()' "gov ValidateTrx: maximal period rejected"
+run M66 m_66 $GC 1 'json.Unmarshal(hotfixOption(option), checkGovParams)' 'json.Unmarshal(option, checkGovParams)' "gov ValidateTrx: hot-fixed form no longer checked (oracle function vanishes)"
+run M67 m_67 $GC 1 'ctx.Height > prop.EndVotingHeight ||' 'ctx.Height >= prop.EndVotingHeight ||' "gov ValidateTrx: no vote at the end height"
+run M68 m_68 $GC 1 'txpayload.Choice >= int32(len(prop.Options))' 'txpayload.Choice > int32(len(prop.Options))' "gov ValidateTrx: choice = #options accepted"
+run M69 m_69 $GC 1 'ctx.StakeHandler.IsValidator(ctx.Tx.From) == false' 'ctx.StakeHandler.IsValidator(ctx.Tx.To) == false' "gov ValidateTrx: right checked for the receiver (oracle call vanishes)"
+run M70 m_70 $GC 1 'getProposal = ctrler.proposalLedger.GetFinality
+	}
+
+	// validation by tx type' 'getProposal = ctrler.frozenLedger.GetFinality
+	}
+
+	// validation by tx type' "gov ValidateTrx: exec path reads the frozen ledger"
+run M71 m_71 $GC 1 'if txpayload.ApplyingHeight < minApplyingHeight || endVotingHeight > txpayload.ApplyingHeight {' 'if txpayload.ApplyingHeight <= minApplyingHeight || endVotingHeight > txpayload.ApplyingHeight {' "gov ValidateTrx: applying height must exceed the minimum"
+run M72 m_72 $SC 1 'if selfPower < minPower {' 'if selfPower <= minPower {' "stake ValidateTrx: self stake must exceed the minimum"
+run M73 m_73 $SC 1 'minDelegatorPower > 0 && minDelegatorPower > txPower' 'minDelegatorPower > 0 && minDelegatorPower >= txPower' "stake ValidateTrx: delegation must exceed the minimum"
+run M74 m_74 $SC 1 'if len(ctrler.lastValidators) >= 3 {
+			if xerr := checkLimit(_delg, txPower); xerr != nil {' 'if len(ctrler.lastValidators) > 3 {
+			if xerr := checkLimit(_delg, txPower); xerr != nil {' "stake ValidateTrx: limiter only with more than 3 validators"
+run M75 m_75 $SC 1 'checkLimit(delegatee, -1*s0.Power)' 'checkLimit(delegatee, s0.Power)' "stake ValidateTrx: unstaking counted as staking by the limiter"
+run M76 m_76 $SC 1 'txpayload.ReqAmt.Cmp(rwd.cumulated) > 0' 'txpayload.ReqAmt.Cmp(rwd.cumulated) >= 0' "stake ValidateTrx: cannot withdraw the whole reward"
+run M77 m_77 $SC 1 'if txhash == nil || len(txhash) != 32 {
+			return xerrors.ErrInvalidTrxPayloadParams
+		}
+
+		_, s0 := delegatee.FindStake(txhash)
+		if s0 == nil {
+			return xerrors.ErrNotFoundStake
+		}
+
+		if ctx.Tx.From.Compare(s0.From) != 0 {
+			return xerrors.ErrNotFoundStake.Wrapf("you not stake owner")
+		}
+
+		if len(ctrler.lastValidators) >= 3 {' 'if txhash == nil || len(txhash) != 20 {
+			return xerrors.ErrInvalidTrxPayloadParams
+		}
+
+		_, s0 := delegatee.FindStake(txhash)
+		if s0 == nil {
+			return xerrors.ErrNotFoundStake
+		}
+
+		if ctx.Tx.From.Compare(s0.From) != 0 {
+			return xerrors.ErrNotFoundStake.Wrapf("you not stake owner")
+		}
+
+		if len(ctrler.lastValidators) >= 3 {' "stake ValidateTrx: stake hash of 20 bytes"
+run M78 m_78 $SC 1 'checkLimit = ctrler.stakeLimiter.CheckLimit' 'checkLimit = ctrler.stakeLimiter.EvaluateLimit' "stake ValidateTrx: DeliverTx only evaluates the limiter"
+run M79 m_79 $SC 1 'if (totalPower + txPower) <= 0 {' 'if (totalPower + txPower) < 0 {' "stake ValidateTrx: overflow test < 0"
+run M80 m_80 $AC 1 'if len(name) > atypes.MAX_ACCT_NAME {' 'if len(name) >= atypes.MAX_ACCT_NAME {' "account ValidateTrx: name of the maximal length rejected"
+run M81 m_81 $AC 1 '_ = from.AddBalance(amt) // refund
+		return err
+	}
+	return nil
+}
+
+func (ctrler *AcctCtrler) SetCode' '// no refund
+		return err
+	}
+	return nil
+}
+
+func (ctrler *AcctCtrler) SetCode' "account transfer: no refund when the credit fails"
+run M82 m_82 $AC 1 'ctx.SumFee().Sign() > 0' 'ctx.SumFee().Sign() >= 0' "account EndBlock: proposer credited with a zero fee sum"
+run M83 m_83 $AC 1 'acct.SetDocURL(url)' 'acct.SetDocURL(name)' "account setDoc: url := name"
+run M84 m_84 $AC 1 'fn := ctrler.acctLedger.Get
+	if exec {
+		fn = ctrler.acctLedger.GetFinality
+	}' 'fn := ctrler.acctLedger.Get
+	if !exec {
+		fn = ctrler.acctLedger.GetFinality
+	}' "account findAccount: views swapped"
+run M85 m_85 $AC 1 '_ = ctrler.setAccountCommittable(ctx.Sender, ctx.Exec)
+	if ctx.Receiver != nil {' 'if ctx.Receiver != nil {' "account ExecuteTrx: sender not handed to the ledger"
+run M86 m_86 $AC 1 '} else if xerr := acct.AddBalance(amt); xerr != nil {
+		return xerr
+	} else if xerr := ctrler.setAccountCommittable(acct, exec); xerr != nil {' '} else if xerr := acct.SubBalance(amt); xerr != nil {
+		return xerr
+	} else if xerr := ctrler.setAccountCommittable(acct, exec); xerr != nil {' "account Reward debits"
+run M87 m_87 $AC 1 'newAcct := atypes.NewAccountWithName(addr, "")
+	ctrler.setAccountCommittable(newAcct, exec)' 'newAcct := atypes.NewAccountWithName(addr, "")' "account FindOrNewAccount: new account not stored"
+run M88 m_88 $SC 1 'NewStakeWithPower(ctx.Tx.From, ctx.Tx.To, power, ctx.Height+1, ctx.TxHash)' 'NewStakeWithPower(ctx.Tx.From, ctx.Tx.To, power, ctx.Height, ctx.TxHash)' "exeStaking: start height = current height"
+run M89 m_89 $SC 1 'delegatee = NewDelegatee(ctx.Tx.From, ctx.SenderPubKey)' 'delegatee = NewDelegatee(ctx.Tx.To, nil)' "exeStaking: new delegatee without public key"
+run M90 m_90 $SC 1 's0.RefundHeight = ctx.Height + ctx.GovHandler.LazyRewardBlocks()
+	_ = setUpdateFrozen(s0) // add s0 to frozen ledger' 's0.RefundHeight = ctx.Height
+	_ = setUpdateFrozen(s0) // add s0 to frozen ledger' "exeUnstaking: refund at once"
+run M91 m_91 $SC 1 'if delegatee.TotalPower == 0 {
+		// this changed delegate will be committed at Commit()
+		if _, xerr := delDelegatee(delegatee.Key()); xerr != nil {' 'if delegatee.SelfPower == 0 {
+		// this changed delegate will be committed at Commit()
+		if _, xerr := delDelegatee(delegatee.Key()); xerr != nil {' "exeUnstaking: delegatee deleted when the self power is 0"
+run M92 m_92 $SC 1 'setUpdateFrozen = ctrler.frozenLedger.SetFinality' 'setUpdateFrozen = ctrler.frozenLedger.Set' "exeUnstaking: DeliverTx writes the mempool view of the frozen ledger"
+run M93 m_93 $SC 1 'setReward = ctrler.rewardLedger.SetFinality' 'setReward = ctrler.rewardLedger.Set' "exeWithdraw: DeliverTx writes the mempool view of the reward ledger"
+run M94 m_94 $SC 1 'slashed := delegatee.DoSlash(slashRatio)
+	_ = ctrler.delegateeLedger.SetFinality(delegatee)' 'slashed := delegatee.DoSlash(slashRatio)' "stake doPunish: slashed delegatee not written back"
+run M95 m_95 $SC 1 'rwd := new(uint256.Int).Mul(power, ctrler.govParams.RewardPerPower())' 'rwd := new(uint256.Int).Add(power, ctrler.govParams.RewardPerPower())' "doRewardTo: reward = power + rate"
+run M96 m_96 $SC 1 'if s0.RefundHeight <= height {' 'if s0.RefundHeight < height {' "unfreezingStakes: refund one block later"
+run M97 m_97 $SC 1 '_, _ = ctrler.frozenLedger.DelFinality(ledger.ToLedgerKey(s0.TxHash))' '_, _ = ctrler.frozenLedger.DelFinality(ledger.ToLedgerKey(s0.From))' "unfreezingStakes: wrong key deleted"
+run M98 m_98 $SC 1 'for _, v := range ctrler.lastValidators {
+		totalPower += v.TotalPower' 'for _, v := range ctrler.lastValidators {
+		totalPower += v.SelfPower' "Validators: total of the self powers"
+run M99 m_99 $SC 1 'for _, v := range ctrler.lastValidators {
+		if bytes.Compare(v.Addr, addr) == 0 {
+			return true' 'for _, v := range ctrler.lastValidators {
+		if bytes.Compare(v.Addr, addr) != 0 {
+			return true' "IsValidator: comparison negated"
+run M100 m_100 $GC 1 'Choice: proposal.NOT_CHOICE, // -1' 'Choice: 0,' "execProposing: voters start with choice 0"
+run M101 m_101 $GC 1 'prop.DoVote(ctx.Tx.From, txpayload.Choice)' 'prop.DoVote(ctx.Tx.To, txpayload.Choice)' "execVoting: the receiver votes"
+run M102 m_102 $GC 1 'prop.DoPunish(targetAddr, ctrler.SlashRatio())' 'prop.DoPunish(targetAddr, ctrler.SlashRatio()+1)' "gov doPunish: ratio + 1"
+run M103 m_103 $GC 1 'if prop.EndVotingHeight < height {' 'if prop.EndVotingHeight <= height {' "freezeProposals: frozen at the end height"
+run M104 m_104 $GC 1 'if xerr := ctrler.frozenLedger.SetFinality(prop); xerr != nil {' 'if xerr := ctrler.proposalLedger.SetFinality(prop); xerr != nil {' "freezeProposals: frozen proposal written to the open ledger"
+run M105 m_105 $SC 1 'rwdObj, xerr := ctrler.rewardLedger.GetFinality(ledger.ToLedgerKey(s0.From))' 'rwdObj, xerr := ctrler.rewardLedger.GetFinality(ledger.ToLedgerKey(s0.To))' "doRewardTo: reward object of the delegatee"
+flush_rows
 echo "---- (iii) harmless rewrites (either outcome is acceptable)"
 run H1 h_1 ctrlers/types/gov_params.go 1 '_vp := new(uint256.Int).Div(amt, amountPerPower)
 	vp := int64(_vp.Uint64())' 'quot := new(uint256.Int).Div(amt, amountPerPower)
@@ -243,6 +388,40 @@ run H8 h_8 node/trx_executor.go 1 'feeAmt := new(uint256.Int).Mul(tx.GasPrice, u
 	if feeAmt.Cmp(ctx.GovHandler.MinTrxFee()) < 0 {' 'fee0 := new(uint256.Int).Mul(tx.GasPrice, uint256.NewInt(tx.Gas))
 	if fee0.Cmp(ctx.GovHandler.MinTrxFee()) < 0 {' "commonValidation0: local feeAmt renamed"
 
+
+
+
+run H9 h_9 ctrlers/gov/ctrler.go 1 'endVotingHeight := txpayload.StartVotingHeight + txpayload.VotingPeriodBlocks
+		minApplyingHeight := endVotingHeight + ctrler.LazyApplyingBlocks()' 'endH := txpayload.StartVotingHeight + txpayload.VotingPeriodBlocks
+		endVotingHeight := endH
+		minApplyingHeight := endVotingHeight + ctrler.LazyApplyingBlocks()' "gov ValidateTrx: end height through an extra local"
+run H10 h_10 ctrlers/stake/ctrler.go 1 'minPower := ctrlertypes.AmountToPower(ctrler.govParams.MinValidatorStake())
+			if selfPower < minPower {' 'minP := ctrlertypes.AmountToPower(ctrler.govParams.MinValidatorStake())
+			if selfPower < minP {' "stake ValidateTrx: local minPower renamed"
+run H11 h_11 ctrlers/account/ctrler.go 1 'if err := from.SubBalance(amt); err != nil {
+		return err
+	}' 'if e0 := from.SubBalance(amt); e0 != nil {
+		return e0
+	}' "account transfer: error variable renamed"
+run H12 h_12 ctrlers/stake/ctrler.go 1 'refundAmt := ctrlertypes.PowerToAmount(s0.Power)
+			xerr := acctHandler.Reward(s0.From, refundAmt, true)' 'amt0 := ctrlertypes.PowerToAmount(s0.Power)
+			xerr := acctHandler.Reward(s0.From, amt0, true)' "unfreezingStakes: local renamed"
+run H13 h_13 ctrlers/gov/ctrler.go 1 'setProposal := ctrler.proposalLedger.Set
+	if ctx.Exec {
+		setProposal = ctrler.proposalLedger.SetFinality
+	}
+
+	txpayload, _ := ctx.Tx.Payload.(*ctrlertypes.TrxPayloadProposal)' 'put := ctrler.proposalLedger.Set
+	if ctx.Exec {
+		put = ctrler.proposalLedger.SetFinality
+	}
+	setProposal := put
+
+	txpayload, _ := ctx.Tx.Payload.(*ctrlertypes.TrxPayloadProposal)' "execProposing: function variable copied (outside the subset: refused)"
+run H14 h_14 ctrlers/stake/ctrler.go 1 'power := ctrlertypes.AmountToPower(ctx.Tx.Amount)
+	s0 := NewStakeWithPower(ctx.Tx.From, ctx.Tx.To, power, ctx.Height+1, ctx.TxHash)' 'pw := ctrlertypes.AmountToPower(ctx.Tx.Amount)
+	s0 := NewStakeWithPower(ctx.Tx.From, ctx.Tx.To, pw, ctx.Height+1, ctx.TxHash)' "exeStaking: local power renamed"
+flush_rows
 echo
 bad=0
 [ $BASE_OK = 1 ] || { echo "SELFTEST FAILED: the clean source does not pass"; bad=1; }
